@@ -348,28 +348,28 @@ Proof.
 Qed.
 
 Lemma load_int_op ib bb idx orig n : nth_error ib idx = Some n ->
-  exists p', parsed_of (load_op O_intc_0 O_intc_1 O_intc_2 O_intc_3 O_intc idx orig) = Some p' /\
+  exists p', parsed_of (load_op O_intc_0 O_intc_1 O_intc_2 O_intc_3 O_intc idx orig) = Some p' /\ imm_fits p' /\
              load_value ib bb p' = Some (SVInt n).
 Proof.
   intros H. destruct idx as [|[|[|[|idx]]]]; cbn [load_op].
-  - exists (mkP O_intc_0 []). split; [reflexivity|]. unfold ConstantsSpec.load_value. cbn [p_op p_imms]. now rewrite H.
-  - exists (mkP O_intc_1 []). split; [reflexivity|]. unfold ConstantsSpec.load_value. cbn [p_op p_imms]. now rewrite H.
-  - exists (mkP O_intc_2 []). split; [reflexivity|]. unfold ConstantsSpec.load_value. cbn [p_op p_imms]. now rewrite H.
-  - exists (mkP O_intc_3 []). split; [reflexivity|]. unfold ConstantsSpec.load_value. cbn [p_op p_imms]. now rewrite H.
-  - exists (mkP O_intc [IInt (N.of_nat (S (S (S (S idx)))))]). split; [apply parsed_long; now left|].
+  - exists (mkP O_intc_0 []). split; [reflexivity|]. split; [exact I|]. unfold ConstantsSpec.load_value. cbn [p_op p_imms]. now rewrite H.
+  - exists (mkP O_intc_1 []). split; [reflexivity|]. split; [exact I|]. unfold ConstantsSpec.load_value. cbn [p_op p_imms]. now rewrite H.
+  - exists (mkP O_intc_2 []). split; [reflexivity|]. split; [exact I|]. unfold ConstantsSpec.load_value. cbn [p_op p_imms]. now rewrite H.
+  - exists (mkP O_intc_3 []). split; [reflexivity|]. split; [exact I|]. unfold ConstantsSpec.load_value. cbn [p_op p_imms]. now rewrite H.
+  - exists (mkP O_intc [IInt (N.of_nat (S (S (S (S idx)))))]). split; [apply parsed_long; now left|]. split; [exact I|].
     unfold ConstantsSpec.load_value. cbn [p_op p_imms]. rewrite nth_error_N_nat, H. reflexivity.
 Qed.
 
 Lemma load_bytes_op ib bb idx orig b : nth_error bb idx = Some b ->
-  exists p', parsed_of (load_op O_bytec_0 O_bytec_1 O_bytec_2 O_bytec_3 O_bytec idx orig) = Some p' /\
+  exists p', parsed_of (load_op O_bytec_0 O_bytec_1 O_bytec_2 O_bytec_3 O_bytec idx orig) = Some p' /\ imm_fits p' /\
              load_value ib bb p' = Some (SVBytes b).
 Proof.
   intros H. destruct idx as [|[|[|[|idx]]]]; cbn [load_op].
-  - exists (mkP O_bytec_0 []). split; [reflexivity|]. unfold ConstantsSpec.load_value. cbn [p_op p_imms]. now rewrite H.
-  - exists (mkP O_bytec_1 []). split; [reflexivity|]. unfold ConstantsSpec.load_value. cbn [p_op p_imms]. now rewrite H.
-  - exists (mkP O_bytec_2 []). split; [reflexivity|]. unfold ConstantsSpec.load_value. cbn [p_op p_imms]. now rewrite H.
-  - exists (mkP O_bytec_3 []). split; [reflexivity|]. unfold ConstantsSpec.load_value. cbn [p_op p_imms]. now rewrite H.
-  - exists (mkP O_bytec [IInt (N.of_nat (S (S (S (S idx)))))]). split; [apply parsed_long; now right|].
+  - exists (mkP O_bytec_0 []). split; [reflexivity|]. split; [exact I|]. unfold ConstantsSpec.load_value. cbn [p_op p_imms]. now rewrite H.
+  - exists (mkP O_bytec_1 []). split; [reflexivity|]. split; [exact I|]. unfold ConstantsSpec.load_value. cbn [p_op p_imms]. now rewrite H.
+  - exists (mkP O_bytec_2 []). split; [reflexivity|]. split; [exact I|]. unfold ConstantsSpec.load_value. cbn [p_op p_imms]. now rewrite H.
+  - exists (mkP O_bytec_3 []). split; [reflexivity|]. split; [exact I|]. unfold ConstantsSpec.load_value. cbn [p_op p_imms]. now rewrite H.
+  - exists (mkP O_bytec [IInt (N.of_nat (S (S (S (S idx)))))]). split; [apply parsed_long; now right|]. split; [exact I|].
     unfold ConstantsSpec.load_value. cbn [p_op p_imms]. rewrite nth_error_N_nat, H. reflexivity.
 Qed.
 
@@ -398,22 +398,31 @@ Proof.
   apply String.eqb_eq in Ec. subst s. injection Ht as <-. discriminate Hn.
 Qed.
 
+Lemma parse_int_arg_lt t n : parse_int_arg t = Some n -> (n < 18446744073709551616)%N.
+Proof.
+  unfold parse_int_arg. destruct (parse_uint t) as [m|].
+  - destruct (N.ltb_spec m 18446744073709551616); [intros E; now injection E as <-|discriminate].
+  - unfold named_int.
+    repeat (match goal with |- (if ?c then _ else _) = _ -> _ => destruct c; [intros E; injection E as <-; reflexivity|] end).
+    discriminate.
+Qed.
+
 Lemma push_int_op k orig v : key_sval CKInt k = Some v ->
-  exists p', parsed_of (mkI O_pushint (int_key_arg k :: cmt orig)) = Some p' /\
+  exists p', parsed_of (mkI O_pushint (int_key_arg k :: cmt orig)) = Some p' /\ imm_fits p' /\
              forall ib bb, load_value ib bb p' = Some v.
 Proof.
   intros H. destruct (key_sval_int_inv _ _ H) as (t & n & Hc & Ht & Hn & ->).
-  exists (mkP O_pushint [IInt n]). split; [|reflexivity].
+  exists (mkP O_pushint [IInt n]). split; [|split; [exact (parse_int_arg_lt _ _ Hn)|reflexivity]].
   unfold ConstantsSpec.parsed_of, cmt. cbn [i_op i_args ConstantsSpec.arg_tokens]. rewrite Hc, Ht.
   cbn -[parse_int_arg]. now rewrite Hn.
 Qed.
 
 Lemma push_bytes_op k orig v : key_sval CKBytes k = Some v ->
-  exists p', parsed_of (mkI O_pushbytes (bytes_key_arg k :: cmt orig)) = Some p' /\
+  exists p', parsed_of (mkI O_pushbytes (bytes_key_arg k :: cmt orig)) = Some p' /\ imm_fits p' /\
              forall ib bb, load_value ib bb p' = Some v.
 Proof.
   intros H. destruct (key_sval_bytes_inv _ _ H) as (t & b & Hc & Ht & Hn & ->).
-  exists (mkP O_pushbytes [IBytes b]). split; [|reflexivity].
+  exists (mkP O_pushbytes [IBytes b]). split; [|split; [exact I|reflexivity]].
   unfold ConstantsSpec.parsed_of, cmt. cbn [i_op i_args ConstantsSpec.arg_tokens]. rewrite Hc, Ht.
   cbn -[parse_bytes_arg]. now rewrite Hn.
 Qed.
@@ -496,3 +505,205 @@ Proof.
   - cbn [app blocks_after]. rewrite PI by discriminate. cbn [p_op p_imms]. rewrite imm_ints_map.
     cbn [blocks_after]. rewrite PB. cbn [p_op p_imms]. now rewrite imm_bytes_map.
 Qed.
+
+(* ---------------------------------------------------------------- the counting loop *)
+Definition has_site (ops : list comp) (kd : ckind) (k : ckey) : Prop :=
+  exists i, In (COp i) ops /\ const_kind (i_op i) = kd /\ extract_key i = Some k.
+
+Lemma has_site_cons c ops kd k : has_site ops kd k -> has_site (c :: ops) kd k.
+Proof. intros (i & Hi & H). exists i. split; [now right|exact H]. Qed.
+
+Ltac split4 := split; [|split; [|split]].
+
+Lemma count_consts_inv ops : forall fi fb fi' fb',
+  count_consts addr_hash sig_hash ops fi fb = Some (fi', fb') ->
+  (wf_freqs fi -> wf_freqs fi') /\ (wf_freqs fb -> wf_freqs fb') /\
+  (forall k, In k (keys fi') -> In k (keys fi) \/ has_site ops CKInt k) /\
+  (forall k, In k (keys fb') -> In k (keys fb) \/ has_site ops CKBytes k).
+Proof.
+  induction ops as [|c t IH]; intros fi fb fi' fb' H.
+  - cbn in H. injection H as <- <-. split4; auto.
+  - assert (Skip : count_consts addr_hash sig_hash t fi fb = Some (fi', fb') ->
+      (wf_freqs fi -> wf_freqs fi') /\ (wf_freqs fb -> wf_freqs fb') /\
+      (forall k, In k (keys fi') -> In k (keys fi) \/ has_site (c :: t) CKInt k) /\
+      (forall k, In k (keys fb') -> In k (keys fb) \/ has_site (c :: t) CKBytes k)).
+    { intros H'. destruct (IH _ _ _ _ H') as (A & B & C & D). split4; auto;
+        intros k Hk; [destruct (C k Hk)|destruct (D k Hk)]; auto using has_site_cons. }
+    destruct c as [i|l cm|pv]; cbn [count_consts] in H; [|apply Skip; exact H..].
+    destruct (const_kind (i_op i)) eqn:Hkd; [| |apply Skip; exact H].
+    + destruct (extract_key i) as [k0|] eqn:Hx; [|discriminate H].
+      destruct (IH _ _ _ _ H) as (A & B & C & D). split4; auto using bump_wf.
+      * intros k Hk. destruct (C k Hk) as [Hin|Hs]; [|auto using has_site_cons].
+        apply bump_keys in Hin. destruct Hin as [->|Hin]; [|now left].
+        right. exists i. split; [now left|]. split; assumption.
+      * intros k Hk. destruct (D k Hk); auto using has_site_cons.
+    + destruct (extract_key i) as [k0|] eqn:Hx; [|discriminate H].
+      destruct (IH _ _ _ _ H) as (A & B & C & D). split4; auto using bump_wf.
+      * intros k Hk. destruct (C k Hk); auto using has_site_cons.
+      * intros k Hk. destruct (D k Hk) as [Hin|Hs]; [|auto using has_site_cons].
+        apply bump_keys in Hin. destruct Hin as [->|Hin]; [|now left].
+        right. exists i. split; [now left|]. split; assumption.
+Qed.
+
+Lemma wf_nil : wf_freqs []. Proof. split; constructor. Qed.
+
+(* ---------------------------------------------------------------- hypotheses on the input *)
+Definition input_ok (ops : list comp) : Prop :=
+  Forall (fun c => well_formed_site sigma msel c /\ no_addr_template_site c /\ plain_method_site c) ops.
+
+Lemma site_has_value ops kd k : input_ok ops -> kd <> CKNone -> has_site ops kd k -> exists v, key_sval kd k = Some v.
+Proof.
+  intros Hok Hkd (i & Hin & Hk & Hx).
+  unfold input_ok in Hok. rewrite Forall_forall in Hok. destruct (Hok _ Hin) as (Hw & Hna & Hpm).
+  assert (Hc : is_const_instr i = true) by (unfold is_const_instr; rewrite Hk; destruct kd; congruence).
+  cbn in Hw. specialize (Hw Hc). destruct (denote i) as [v|] eqn:Hd; [|congruence].
+  exists v. rewrite <- Hk. eapply site_key_value; eassumption.
+Qed.
+
+Lemma keys_have_int_vals ks : (forall k, In k ks -> exists v, key_sval CKInt k = Some v) ->
+  exists vals, int_vals ks vals.
+Proof.
+  induction ks as [|k t IH]; intros H; [exists []; constructor|].
+  destruct IH as [vals Hv]; [intros k' Hk'; apply H; now right|].
+  destruct (H k (or_introl eq_refl)) as [v Hk]. destruct (key_sval_int_inv _ _ Hk) as (tk & n & _ & _ & _ & ->).
+  exists (n :: vals). constructor; assumption.
+Qed.
+
+Lemma keys_have_bytes_vals ks : (forall k, In k ks -> exists v, key_sval CKBytes k = Some v) ->
+  exists vals, bytes_vals ks vals.
+Proof.
+  induction ks as [|k t IH]; intros H; [exists []; constructor|].
+  destruct IH as [vals Hv]; [intros k' Hk'; apply H; now right|].
+  destruct (H k (or_introl eq_refl)) as [v Hk]. destruct (key_sval_bytes_inv _ _ Hk) as (tk & b & _ & _ & _ & ->).
+  exists (b :: vals). constructor; assumption.
+Qed.
+
+Lemma forall2_nth {A B} (R : A -> B -> Prop) l1 l2 : Forall2 R l1 l2 ->
+  forall idx a, nth_error l1 idx = Some a -> exists b, nth_error l2 idx = Some b /\ R a b.
+Proof.
+  induction 1 as [|x y l1 l2 Hxy _ IH]; intros idx a Hn; [destruct idx; discriminate Hn|].
+  destruct idx as [|idx]; cbn in *; [injection Hn as <-; eauto|eauto].
+Qed.
+
+(* ---------------------------------------------------------------- one component *)
+Lemma rewrite_comp_ok iks fb sb ivals bvals c c' :
+  wf_freqs fb ->
+  int_vals iks ivals ->
+  bytes_vals (byte_block_of sb) bvals ->
+  sb = sort_desc fb ->
+  well_formed_site sigma msel c -> no_addr_template_site c -> plain_method_site c ->
+  rewrite_comp addr_hash sig_hash iks fb sb c = Some c' ->
+  site_ok sigma msel ivals bvals c c'.
+Proof.
+  intros Hwf Hiv Hbv Hsb Hw Hna Hpm H.
+  destruct c as [i|l cm|pv]; cbn [rewrite_comp] in H; [|injection H as <-; reflexivity..].
+  unfold site_ok, is_const_instr.
+  destruct (const_kind (i_op i)) eqn:Hkd.
+  - (* int site *)
+    destruct (extract_key i) as [k|] eqn:Hx; [|discriminate H].
+    assert (Hc : is_const_instr i = true) by (unfold is_const_instr; now rewrite Hkd).
+    cbn in Hw. specialize (Hw Hc). destruct (denote i) as [v|] eqn:Hd; [|congruence].
+    pose proof (site_key_value i k v Hc Hx Hd Hna Hpm) as Hkv. rewrite Hkd in Hkv.
+    destruct (index_of k iks) as [idx|] eqn:Hidx; injection H as <-.
+    + apply index_of_spec in Hidx.
+      destruct (forall2_nth _ _ _ Hiv _ _ Hidx) as (n & Hn & Hkn).
+      destruct (load_int_op ivals bvals idx (i_args i) n Hn) as (p' & Hp & Hfit & Hl).
+      eexists _, p'. split; [reflexivity|]. split; [exact Hp|]. split; [exact Hfit|].
+      intros v' Hv'. injection Hv' as <-. rewrite Hl. congruence.
+    + destruct (push_int_op k (i_args i) v Hkv) as (p' & Hp & Hfit & Hl).
+      eexists _, p'. split; [reflexivity|]. split; [exact Hp|]. split; [exact Hfit|].
+      intros v' Hv'. injection Hv' as <-. apply Hl.
+  - (* byte-like site *)
+    destruct (extract_key i) as [k|] eqn:Hx; [|discriminate H].
+    assert (Hc : is_const_instr i = true) by (unfold is_const_instr; now rewrite Hkd).
+    cbn in Hw. specialize (Hw Hc). destruct (denote i) as [v|] eqn:Hd; [|congruence].
+    pose proof (site_key_value i k v Hc Hx Hd Hna Hpm) as Hkv. rewrite Hkd in Hkv.
+    destruct (freq_of k fb =? 1)%nat eqn:Hf1.
+    + injection H as <-.
+      destruct (push_bytes_op k (i_args i) v Hkv) as (p' & Hp & Hfit & Hl).
+      eexists _, p'. split; [reflexivity|]. split; [exact Hp|]. split; [exact Hfit|].
+      intros v' Hv'. injection Hv' as <-. apply Hl.
+    + destruct (index_of k (map fst sb)) as [idx|] eqn:Hidx; [|discriminate H]. injection H as <-.
+      apply index_of_spec in Hidx.
+      (* the entry found in the sorted key list sits at the same index of the byte block *)
+      destruct (nth_error sb idx) as [[k' n]|] eqn:Hsb_idx.
+      2:{ rewrite nth_error_map, Hsb_idx in Hidx. discriminate Hidx. }
+      rewrite nth_error_map, Hsb_idx in Hidx. cbn in Hidx. injection Hidx as ->.
+      assert (Hin : In (k, n) fb).
+      { apply (sort_desc_in fb). rewrite <- Hsb. eapply nth_error_In; exact Hsb_idx. }
+      destruct Hwf as [Hnd Hpos].
+      pose proof (freq_of_in fb Hnd k n Hin) as Hfreq.
+      assert (Hn1 : (1 <= n)%nat) by (rewrite Forall_forall in Hpos; apply (Hpos _ Hin)).
+      apply Nat.eqb_neq in Hf1.
+      assert (Hkeep : (fun kn : ckey * nat => (1 <? snd kn)%nat) (k, n) = true) by (cbn [snd]; apply Nat.ltb_lt; lia).
+      assert (Hblock : nth_error (byte_block_of sb) idx = Some k).
+      { unfold byte_block_of. rewrite nth_error_map.
+        rewrite (filter_keeps_prefix (fun kn => (1 <? snd kn)%nat) sb) with (x := (k, n)); try assumption; [reflexivity| |].
+        - intros a b Hab Hb. unfold desc in Hab. apply Nat.ltb_lt in Hb. apply Nat.ltb_lt. lia.
+        - rewrite Hsb. apply sort_desc_sorted. }
+      destruct (forall2_nth _ _ _ Hbv _ _ Hblock) as (b & Hb & Hkb).
+      destruct (load_bytes_op ivals bvals idx (i_args i) b Hb) as (p' & Hp & Hfit & Hl).
+      eexists _, p'. split; [reflexivity|]. split; [exact Hp|]. split; [exact Hfit|].
+      intros v' Hv'. injection Hv' as <-. rewrite Hl. congruence.
+  - injection H as <-. reflexivity.
+Qed.
+
+Lemma rewrite_all_forall2 (R : comp -> comp -> Prop) iks fb sb ops :
+  forall body, rewrite_all addr_hash sig_hash iks fb sb ops = Some body ->
+  (forall c c', In c ops -> rewrite_comp addr_hash sig_hash iks fb sb c = Some c' -> R c c') ->
+  Forall2 R ops body.
+Proof.
+  induction ops as [|c t IH]; intros body H HR; cbn [rewrite_all] in H.
+  - injection H as <-. constructor.
+  - destruct (rewrite_comp addr_hash sig_hash iks fb sb c) as [c'|] eqn:Hc; [|discriminate H].
+    destruct (rewrite_all addr_hash sig_hash iks fb sb t) as [r|] eqn:Hr; [|discriminate H].
+    injection H as <-. constructor.
+    + apply HR; [now left|exact Hc].
+    + apply IH; [reflexivity|]. intros c0 c0' Hin. apply HR. now right.
+Qed.
+
+(* ---------------------------------------------------------------- main theorem *)
+Theorem constants_sites_preserved ops out :
+  create_constant_blocks addr_hash sig_hash ops = Some out ->
+  input_ok ops ->
+  exists pro body ib bb,
+    out = (pro ++ body)%list /\
+    Forall (fun c => exists i, c = COp i /\ (i_op i = O_intcblock \/ i_op i = O_bytecblock)) pro /\
+    blocks_after sigma msel pro [] [] = Some (ib, bb) /\
+    Forall2 (site_ok sigma msel ib bb) ops body.
+Proof.
+  unfold create_constant_blocks, make_plan. intros H Hok.
+  destruct (count_consts addr_hash sig_hash ops [] []) as [[fi fb]|] eqn:Hcount; [|discriminate H].
+  cbn [pl_int_block pl_fb pl_sorted_bytes pl_byte_block] in H.
+  destruct (rewrite_all addr_hash sig_hash (int_block_from 0 (sort_desc fi)) fb (sort_desc fb) ops) as [body|] eqn:Hrw;
+    [|discriminate H].
+  injection H as <-.
+  destruct (count_consts_inv ops _ _ _ _ Hcount) as (Wi & Wb & Ki & Kb).
+  specialize (Wi wf_nil). specialize (Wb wf_nil).
+  (* every block entry denotes a value *)
+  destruct (keys_have_int_vals (int_block_from 0 (sort_desc fi))) as [ivals Hiv].
+  { intros k Hk. apply int_block_from_incl in Hk. unfold keys in Hk. apply in_map_iff in Hk.
+    destruct Hk as ([k' n] & <- & Hin). apply (proj1 (sort_desc_in _ _)) in Hin.
+    assert (Hk' : In k' (keys fi)) by (change k' with (fst (k', n)); now apply in_map).
+    destruct (Ki k' Hk') as [[]|Hs].
+    eapply site_has_value; [exact Hok|discriminate|exact Hs]. }
+  destruct (keys_have_bytes_vals (byte_block_of (sort_desc fb))) as [bvals Hbv].
+  { intros k Hk. unfold byte_block_of in Hk. apply in_map_iff in Hk.
+    destruct Hk as ([k' n] & <- & Hin). apply filter_In in Hin. destruct Hin as [Hin _].
+    apply (proj1 (sort_desc_in _ _)) in Hin.
+    assert (Hk' : In k' (keys fb)) by (change k' with (fst (k', n)); now apply in_map).
+    destruct (Kb k' Hk') as [[]|Hs].
+    eapply site_has_value; [exact Hok|discriminate|exact Hs]. }
+  exists (block_prologue (int_block_from 0 (sort_desc fi)) (byte_block_of (sort_desc fb))), body, ivals, bvals.
+  split; [reflexivity|]. split; [|split].
+  - unfold block_prologue.
+    destruct (int_block_from 0 (sort_desc fi)); destruct (byte_block_of (sort_desc fb)); cbn [app];
+      repeat constructor; eexists; (split; [reflexivity|cbn; auto]).
+  - apply blocks_after_prologue; assumption.
+  - eapply rewrite_all_forall2; [exact Hrw|].
+    intros c c' Hin Hc. unfold input_ok in Hok. rewrite Forall_forall in Hok.
+    destruct (Hok c Hin) as (Hw & Hna & Hpm).
+    eapply rewrite_comp_ok; try eassumption. reflexivity.
+Qed.
+
+End Sites.
